@@ -171,6 +171,8 @@ def rule_r2(facts, rep, rid="C06-R2"):
                 if any((fb.callee(y) or "").endswith("GraphInline::is_ref") for y in fb.calls_in(p["c"])) and not any(z.get("k") == "unary" and z.get("op") == "!" for z in fb.walk(p["c"])):
                     guarded = True
             child = p
+        if not guarded and known_call(ct, x, "GraphInline::is_ref") is True:
+            guarded = True       # `let is_ref = self.is_ref(); .. else if is_ref { .. }`, an early exit on `!is_ref`, ...
         if not guarded:
             bad += 1
     if ext_sites and not bad:
@@ -291,6 +293,12 @@ def rule_r5(facts, rep, rid="C06-R5"):
                         inner = cj["e"]
                         if inner.get("k") in ("call", "mcall") and fb.last_seg(fb.callee(inner) or "") in ("is_ref", "is_ref_url"):
                             neg_ref = True
+                # the same knowledge in any other spelling: `let is_ref = self.is_ref(); if !is_ref && ..`, an enclosing `if !is_ref`, a preceding early exit ...
+                cf = ctx(f)
+                probe = x["t"]
+                for suffix in ("::is_ref", "::is_ref_url"):
+                    if known_call(cf, probe, suffix) is False:
+                        neg_ref = True
                 if neg_ref:
                     rep.ok(rid, key, "autolink form chosen under `%s`" % fb.show(cond)[:80], loc(f, x))
                 else:
